@@ -192,6 +192,18 @@ def pc_pairs(chk, tier, full):
             trs = [raw(name, ["kernel", k, sd]) for sd in (1, 2, 3)]
             for t in trs[1:]:
                 g.one("data_pair", "pc.pair", routine=name, mode="same", ta=trs[0], tb=t, slack=0, lens=[k])
+    # which code serves the public Block interface: Encrypt and Decrypt of the cipher NewCipher hands out must enter the
+    # one-block kernel (asmtrace exits with status 5 and an empty trace when the call ended without reaching it)
+    import subprocess
+    out_, syms_ = ac.build_target(chk)
+    if "cryptoBlockAsm" in syms_:
+        lo_, size_ = syms_["cryptoBlockAsm"]
+        for call in ("blockenc", "blockdec"):
+            p_ = subprocess.run([chk.drv(), "asmtrace", lo_, size_, out_, call, str(3 + core.seed())], capture_output=True, text=True,
+                                timeout=300)
+            if p_.returncode not in (0, 5):
+                raise core.Infra("asmtrace failed for %s: %s" % (call, p_.stderr[-300:]))
+            g.one("block_dispatch", "pc.entered", routine="cryptoBlockAsm", call=call, mode="entered", entered=p_.returncode == 0)
     chk.exec_and_validate("T_Leak", g.cmds, lambda b: "pc.%s.%s" % (b["ev"]["routine"], b["ev"]["mode"]), tag="pc")
     chk.extra["pc_traces_compared"] = chk.extra.get("pc_traces_compared", 0) + n
 
